@@ -14,10 +14,11 @@ from fractions import Fraction
 import numpy as np
 
 RULE = (
-    "cap: full product centre alphabet (equator/seam, generic, 359.999999, 360, |dec| 89.8 / 89.95 / 90 both "
-    "signs, 2 seed-chosen) x radius {1e-6,1e-3,1,100,179.9,180, seed} x dorot x every (u, psi/2pi) pair of the "
-    "stub-deviate lattice, each pair alone (nrand=1) and all pairs together in one call; every case is run "
-    "with and without get_radius.  non-trivial = the cap is built by rotation, contains a pole, has radius "
+    "cap: full product centre alphabet (equator/seam, generic, 359.999999, 360, |dec| 89.8 / 89.9 / 89.95 / 90 both "
+    "signs, 2 seed-chosen; thorough: all 7 lon x 12 lat boundary symbols) x radius alphabet (12 values 1e-6..180 "
+    "incl. 90, 179.9, 180, + seed; thorough 24) x dorot x every (u, psi/2pi) pair of the stub-deviate lattice "
+    "(u: 0, 1e-300 .. 1-2^-53; psi/2pi: 0, 2^-53, quadrant points, 0.5 -/+ 1e-9, 1-2^-53; + seed), each pair alone "
+    "(nrand=1), all pairs together in one call, and nrand=0; every case is run with and without get_radius.  non-trivial = the cap is built by rotation, contains a pole, has radius "
     ">= 90 or a returned point lies across the 0/360 seam from the centre.  "
     "box: boxes {full sphere, generic, zero width in lon / lat / both, polar caps, seam edge, seed} x "
     "system {eq, xyz} x range container x every (t_lon, t_lat) stub pair alone and all together; "
@@ -44,27 +45,32 @@ ASSUMPTIONS = [
     "the returned radius is additionally compared with sqrt(u)*rad (u = the deviate served by the stub; the anchored "
     "mechanism 'cap sampling by radius and position angle', uniform in r^2) to 1e-14*rad",
     "stub-deviate pairs whose exact target lies within 1e-5 degree of a pole of the frame in which the cap is "
-    "constructed (r = 90 degree from an equatorial construction centre with psi = 0 or 2pi, r = colatitude of the "
-    "centre with psi = 0 / pi) are kept off the lattice: the longitude there is 0/0 in the construction "
+    "constructed (r = 90 degree from the equatorial construction centre of a rotated cap with psi = 0 / pi / 2pi; "
+    "r = distance of a directly constructed cap's centre from a pole with the position angle pointing at that pole) "
+    "are kept off the lattice: the longitude there is 0/0 in the construction "
     "(NaN inside ~6e-7 degree of the pole); this set has measure ~1e-16 of the sphere for a continuous generator; "
     "the number of excluded pairs is in the evidence (counter excluded_on_construction_pole)",
     "box containment slack 1e-9 degree (not in the statement); box edges are either exactly at a pole or at least "
     "0.01 degree away from it (arccos round trip of an edge closer to the pole costs more than 1e-9 degree)",
     "box sampler: besides containment (the statement) the deviate->position map of the anchored mechanism "
-    "'uniform-in-sin(dec) box sampling' is checked: lon = lo + t*(hi-lo) exactly as served by the stub, "
+    "'uniform-in-sin(dec) box sampling' is checked: lon = lo + t*(hi-lo) within 1e-9 degree, "
     "lat = asin(sin(top) - t*(sin(top)-sin(bottom))) within min(2e-6, 1e-9 + 1e-13/cos(lat)) degree "
-    "(arccos conditioning); the stub serves longitude deviates on the first uniform() call and latitude deviates "
-    "on the second (the order the implementation uses)",
+    "(arccos conditioning); t or 1-t is accepted for either coordinate; the stub answers the first request for deviates "
+    "with the longitude fractions and the second with the latitude fractions (the order the implementation uses), "
+    "for the cap: first the r^2 fractions u, then the position-angle fractions",
     "xyz output: unit norm to 1e-15, and (x,y,z) equal cos/sin of the eq output of the same stub to 1e-15",
-    "stub generators implement random(n) / random_sample(n) / uniform(low, high, size) / choice(a, size, replace) only",
+    "stub generators implement random(n) / random_sample(n) / uniform(low, high, size) (one queue, whichever is called) "
+    "and choice(a, size, replace) only",
     "sampler reference: exact rational arithmetic (fractions.Fraction) on the float64 inputs: trapezoid cumulative, "
     "normalised by its last value, the first grid point dropped (its cumulative value 0 is not tabulated by the "
     "implementation, which is why the statement only promises the grid range for u >= the first tabulated value); "
     "below the first tabulated value the first segment is extended as a straight line; with cumulative=True the "
     "supplied values divided by the last one are the table and no point is dropped",
-    "sampler tolerance (not in the statement): |value - reference| <= 1e-11*(x_max - x_min) (+ 4 ulp of |x|); the same slack is "
-    "allowed in 'returned exactly at tabulated values', 'non-decreasing' and 'inside the grid' because "
-    "(u-c_k)*(x_k+1-x_k)/(c_k+1-c_k)+x_k is evaluated in float64; densities have dynamic range <= 1e4",
+    "sampler tolerance (not in the statement): |value - reference| <= 1e-11*(x_max - x_min) + 4 ulp(|x|) + "
+    "2^-50 * |dx/dc| * max(1, |u-c_k|/(c_k+1-c_k)) for the segment k used (the last term is the effect of one rounding "
+    "error of a float64 cumulative value; it only matters when a very short first segment is extended far below the "
+    "first tabulated value); the same slack is allowed in 'returned exactly at tabulated values', 'non-decreasing' and "
+    "'inside the grid' because (u-c_k)*(x_k+1-x_k)/(c_k+1-c_k)+x_k is evaluated in float64",
     "density grids have at least 3 points (2 tabulated cumulative values are needed to interpolate; a 2-point density grid "
     "raises IndexError in stat.interplin - reported to the maintainers of the harness, not enumerated); "
     "cumulative=True tables include a 2-point grid",
@@ -77,6 +83,8 @@ ASSUMPTIONS = [
     "impossible (unique with nrand > imax, or nrand > 0 from an empty range)",
     "seeded sampler: the reference map is applied to rng.uniform(size=n) of an equal seeded generator (the single call the "
     "stub part observes)",
+    "cases that use numpy's default (unseeded) generator assert only claims that must hold for every draw (count, ranges, "
+    "containment, radii); they are the only cases whose replay draws other deviates than the recorded run",
     "lattice statement only: holds on every listed (centre, radius, deviate, box, grid, density, matrix) point, not for all reals",
 ]
 
@@ -95,17 +103,18 @@ POLE_EXCL = 1e-5        # degree
 class StubRng(object):
     """random source whose every deviate comes from the case literal.
 
-    ``random(n)`` pops the next vector of the *random* queue, ``uniform`` the next
-    fraction vector of the *uniform* queue and maps it to [low, high].  A request
-    whose size differs from the prepared vector is logged in ``problems``."""
+    One queue of fraction vectors in [0,1]: the i-th request (``random(n)`` or
+    ``uniform(low, high, n)``, whichever the code under test uses) is answered
+    with the i-th vector, mapped to [low, high] for ``uniform``.  A request whose
+    size differs from the prepared vector is logged in ``problems``."""
 
-    def __init__(self, rand=(), unif=()):
-        self.rand = [np.array(v, dtype="f8") for v in rand]
-        self.unif = [np.array(v, dtype="f8") for v in unif]
+    def __init__(self, queue=()):
+        self.queue = [np.array(v, dtype="f8") for v in queue]
         self.log = []
         self.problems = []
 
-    def _serve(self, queue, what, size):
+    def _serve(self, what, size):
+        queue = self.queue
         if not queue:
             self.problems.append("unexpected extra %s request (size %r)" % (what, size))
             n = int(np.prod(size)) if size is not None else 1
@@ -122,13 +131,13 @@ class StubRng(object):
 
     def random(self, size=None):
         self.log.append(("random", size))
-        return self._serve(self.rand, "random", size)
+        return self._serve("random", size)
 
     random_sample = random
 
     def uniform(self, low=0.0, high=1.0, size=None):
         self.log.append(("uniform", low, high, size))
-        t = self._serve(self.unif, "uniform", size)
+        t = self._serve("uniform", size)
         return low + (high - low) * t
 
 
@@ -196,12 +205,11 @@ def on_construction_pole(dec_c, rad, us, pss):
     th = np.deg2rad(LD(dec_c))
     r = np.deg2rad(np.sqrt(np.asarray(us, dtype=LD)) * LD(rad))
     psi = 2 * np.pi * np.asarray(pss, dtype=LD)
-    # components of the target perpendicular to the polar axis
+    # components of the target perpendicular to the polar axis; position angle 0 points south
+    # (the construction measures the polar angle from the south pole and psi = 0 decreases it)
     a = np.sin(r) * np.sin(psi)
-    b = np.cos(th) * np.cos(r) - np.sin(th) * np.sin(r) * np.cos(psi)
-    b2 = np.cos(th) * np.cos(r) + np.sin(th) * np.sin(r) * np.cos(psi)
-    s = np.minimum(np.hypot(a, b), np.hypot(a, b2))     # either sense of the position angle
-    return np.asarray(s < math.sin(math.radians(POLE_EXCL)))
+    b = np.cos(th) * np.cos(r) + np.sin(th) * np.sin(r) * np.cos(psi)
+    return np.asarray(np.hypot(a, b) < math.sin(math.radians(POLE_EXCL)))
 
 
 def centre_class(ra, dec):
@@ -280,10 +288,14 @@ def ref_table(xs, ps, cumulative):
 
 
 def ref_map(tab_x, tab_c, u):
+    """-> (exact value, conditioning): conditioning = |dx/dc| * max(1, |u-c_k|/(c_k+1-c_k)) of the segment
+    used, i.e. how strongly one rounding error of a tabulated float64 cumulative value moves the result"""
     u = Fraction(float(u))
     k = bisect.bisect_right(tab_c, u) - 1
     k = min(max(k, 0), len(tab_c) - 2)
-    return tab_x[k] + (u - tab_c[k]) * (tab_x[k + 1] - tab_x[k]) / (tab_c[k + 1] - tab_c[k])
+    dx = tab_x[k + 1] - tab_x[k]
+    dc = tab_c[k + 1] - tab_c[k]
+    return tab_x[k] + (u - tab_c[k]) * dx / dc, float(abs(dx / dc) * max(1, abs(u - tab_c[k]) / dc))
 
 
 DENS = {
@@ -486,6 +498,8 @@ def main(ctx):
     seed_t = round(rnd.uniform(0.02, 0.98), 6)
     seed_su = round(rnd.uniform(0.02, 0.98), 6)
     seed_grid = tuple(sorted(set(round(rnd.uniform(-3.0, 7.0), 3) for _ in range(6))))
+    if len(seed_grid) < 4:
+        seed_grid = (-2.5, 0.125, 1.0, 6.75)
     sa = [[round(rnd.uniform(-2.0, 2.0), 3) for _ in range(4)] for _ in range(4)]
     seed_matrix = ("seed4", aat(sa))
     ctx.notes.append("seed-chosen generic symbols: centres %r, radius %r, u %r, psi/2pi %r, box %r, t %r, "
@@ -507,20 +521,20 @@ def main(ctx):
             if us.size == 0:
                 return
         n = int(us.size)
-        stub = StubRng(rand=[us], unif=[pss])
+        stub = StubRng([us, pss])
         try:
             out = coords.randcap(n, ra, dec, rad, get_radius=True, dorot=dorot, rng=stub)
         except Exception as e:
             return rec.fail(case, "randcap(get_radius=True) raised %s: %s" % (type(e).__name__, e))
         if not (isinstance(out, tuple) and len(out) == 3):
             return rec.fail(case, "randcap(get_radius=True) did not return (ra, dec, radius): %r" % (type(out),))
-        if stub.problems or stub.rand or stub.unif:
+        if stub.problems or stub.queue:
             return rec.fail(case, "generator protocol: %s" % ("; ".join(stub.problems) or "a prepared deviate vector was not requested"))
         lon, lat, rr = out
         msg, wrapped = check_cap_points(ra, dec, rad, lon, lat, rr, us, n)
         if msg:
-            return rec.fail(case, "%s cap: %s" % ("rotated" if rot else "direct", msg))
-        stub2 = StubRng(rand=[us], unif=[pss])
+            return rec.fail(case, "%s cap: %s" % (("polar-centre" if abs(dec) >= 89.9 else "rotated") if rot else "direct", msg))
+        stub2 = StubRng([us, pss])
         try:
             out2 = coords.randcap(n, ra, dec, rad, dorot=dorot, rng=stub2)
         except Exception as e:
@@ -557,12 +571,12 @@ def main(ctx):
         rar, decr, system, kind, tl, tb = case
         mk = list if kind == "list" else (tuple if kind == "tuple" else (lambda v: np.array(v, dtype="f8")))
         n = len(tl)
-        stub = StubRng(unif=[tl, tb])
+        stub = StubRng([tl, tb])
         try:
             lon, lat = coords.randsphere(n, ra_range=mk(rar), dec_range=mk(decr), rng=stub)
         except Exception as e:
             return rec.fail(case, "randsphere raised %s: %s" % (type(e).__name__, e))
-        if stub.problems or stub.unif:
+        if stub.problems or stub.queue:
             return rec.fail(case, "generator protocol: %s" % ("; ".join(stub.problems) or "a prepared deviate vector was not requested"))
         msg = check_box_points(rar, decr, lon, lat, n)
         if msg:
@@ -571,19 +585,27 @@ def main(ctx):
         if n:
             tlv = np.array(tl, dtype="f8")
             explon = rar[0] + (rar[1] - rar[0]) * tlv
-            if not np.array_equal(lon, explon):
-                return rec.fail(case, "box: longitudes %r are not the deviates served for [lo,hi]: %r" % (lon[:3].tolist(), explon[:3].tolist()))
+            explon2 = rar[1] - (rar[1] - rar[0]) * tlv
+            if not (np.abs(lon - explon).max() <= TOL_BOX or np.abs(lon - explon2).max() <= TOL_BOX):
+                return rec.fail(case, "box: longitudes %r are not lo + t*(hi-lo) = %r for the served deviates t" % (lon[:3].tolist(), explon[:3].tolist()))
             t = np.array(tb, dtype=LD)
             s1 = np.sin(np.deg2rad(LD(decr[1])))
             s0 = np.sin(np.deg2rad(LD(decr[0])))
-            ref = np.rad2deg(np.arcsin(np.clip(s1 - t * (s1 - s0), -1, 1))).astype("f8")
-            tol = np.minimum(2e-6, 1e-9 + 1e-13 / np.maximum(np.cos(np.deg2rad(ref)), 1e-30))
-            k = int(np.argmax(np.abs(lat - ref) - tol))
-            if abs(lat[k] - ref[k]) > tol[k]:
-                return rec.fail(case, "box: latitude %r for deviate t=%r is not asin(sin(top)-t*(sin(top)-sin(bottom))) = %r"
-                                % (float(lat[k]), float(tb[k]), float(ref[k])))
+            worst = None
+            for tt in (t, 1 - t):       # either orientation of the deviate is a uniform-in-sin(lat) sampler
+                ref = np.rad2deg(np.arcsin(np.clip(s1 - tt * (s1 - s0), -1, 1))).astype("f8")
+                tol = np.minimum(2e-6, 1e-9 + 1e-13 / np.maximum(np.cos(np.deg2rad(ref)), 1e-30))
+                k = int(np.argmax(np.abs(lat - ref) - tol))
+                if abs(lat[k] - ref[k]) <= tol[k]:
+                    worst = None
+                    break
+                if worst is None:
+                    worst = (float(lat[k]), float(tb[k]), float(ref[k]))
+            if worst is not None:
+                return rec.fail(case, "box: latitude %r for deviate t=%r is not uniform in sin(lat): "
+                                "asin(sin(top)-t*(sin(top)-sin(bottom))) = %r" % worst)
         if system == "xyz":
-            stub3 = StubRng(unif=[tl, tb])
+            stub3 = StubRng([tl, tb])
             try:
                 xyz = coords.randsphere(n, ra_range=mk(rar), dec_range=mk(decr), system="xyz", rng=stub3)
             except Exception as e:
@@ -693,7 +715,8 @@ def main(ctx):
 
     def check_values(case, rec, got, us, uspecs, tab_x, tab_c, grid, what):
         span = float(grid[-1]) - float(grid[0])
-        tol = 1e-11 * span + 4 * float(np.spacing(max(abs(float(grid[0])), abs(float(grid[-1])))))
+        tol0 = 1e-11 * span + 4 * float(np.spacing(max(abs(float(grid[0])), abs(float(grid[-1])))))
+        tolmax = tol0
         if not (isinstance(got, np.ndarray) and got.shape == (len(us),)):
             rec.fail(case, "%s: %d values requested, got %r" % (what, len(us), getattr(got, "shape", type(got).__name__)))
             return False
@@ -701,7 +724,10 @@ def main(ctx):
             rec.fail(case, "%s: non-finite value" % what)
             return False
         for i, (u, sp) in enumerate(zip(us, uspecs)):
-            ref = float(ref_map(tab_x, tab_c, u))
+            ref, cond = ref_map(tab_x, tab_c, u)
+            ref = float(ref)
+            tol = tol0 + 8 * 2.0 ** -53 * cond
+            tolmax = max(tol, tolmax)
             g = float(got[i])
             if abs(g - ref) > tol:
                 rec.fail(case, "%s: deviate u=%r (%s) gave %r, linear interpolation of the grid against the "
@@ -717,7 +743,7 @@ def main(ctx):
                 return False
         order = np.argsort(np.array(us, dtype="f8"), kind="stable")
         gs = got[order]
-        if gs.size > 1 and np.any(np.diff(gs) < -tol):
+        if gs.size > 1 and np.any(np.diff(gs) < -tolmax):
             k = int(np.argmin(np.diff(gs)))
             rec.fail(case, "%s: the map is decreasing in u: u=%r -> %r, u=%r -> %r"
                      % (what, us[order[k]], float(gs[k]), us[order[k + 1]], float(gs[k + 1])))
@@ -740,7 +766,7 @@ def main(ctx):
             # after sorting the spec labels no longer line up: recompute the labels that matter
             lab = {resolve_u(s, tab_c): s for s in uspecs if s[0] == "cum"}
             uspecs = [lab.get(u, ("lit", u)) for u in us]
-            stub.unif = [np.array(us, dtype="f8"), np.array(us[::-1], dtype="f8")]
+            stub.queue = [np.array(us, dtype="f8"), np.array(us[::-1], dtype="f8")]
             try:
                 got = g.sample(len(us))
                 got2 = g.sample(len(us))
@@ -761,7 +787,7 @@ def main(ctx):
                 rec.count("absent_u_symbols")
                 return
             u = resolve_u(sp, tab_c)
-            stub.unif = [np.array([u], dtype="f8")]
+            stub.queue = [np.array([u], dtype="f8")]
             try:
                 if draw[0] == "scalar":
                     v = g.sample()
@@ -780,9 +806,9 @@ def main(ctx):
                 cls = "below-first-value" if Fraction(u) < tab_c[0] else ("u=1" if u == 1.0 else "interior")
             if draw[0] == "scalar":
                 cls += "/scalar"
-        if stub.problems or stub.unif:
+        if stub.problems or stub.queue:
             return rec.fail(case, "generator protocol: %s" % ("; ".join(stub.problems) or "a prepared deviate vector was not requested"))
-        if any(c[0] != "uniform" or c[1:3] != (0.0, 1.0) for c in stub.log):
+        if any(c[0] == "uniform" and c[1:3] != (0.0, 1.0) for c in stub.log):
             return rec.fail(case, "generator protocol: deviates were not requested as uniform on [0,1]: %r" % (stub.log[:2],))
         if keep is not None and not (np.array_equal(keep[0], keep[2]) and np.array_equal(keep[1], keep[3])):
             return rec.fail(case, "the caller's table was modified")
